@@ -231,6 +231,12 @@ UNITS["C13"] = [
     _k("c13_to_token_kind_total_for_every_forwarded_kind", "fea-rs", "fea-rs/src/parse/lexer/lexeme.rs", ["fea_rs::parse::lexer::lexeme::Kind::to_token_kind", "fea_rs::parse::lexer::lexeme::Kind::is_trivia"], "complete",
        "every lexer Kind except StringUnterminated / HexEmpty (replaced by the parser before forwarding) and Tombstone (never lexed: Verus contract); loop-free", "kind is forwardable",
        "to_token_kind does not panic; only Eof maps to Eof; trivia are exactly Comment / Whitespace / Backslash"),
+    _k("c13_source_map_resolve_range_stays_inside_its_chunk_2", "fea-rs", "fea-rs/src/parse/source.rs", ["fea_rs::parse::source::SourceMap::resolve_range", "fea_rs::parse::source::SourceMap::add_entry"], "bounded",
+       "a map of exactly 2 adjacent chunks (arbitrary sizes / displacements < 2^40); any global range inside one chunk", "range inside one chunk",
+       "attributed to that chunk's file; length preserved; start displaced by the chunk's offset; result inside the part of the file the chunk covers; no panic / overflow",
+       tiers=("thorough",), timeout_s=1800),
+    _k("c13_source_map_ignores_empty_chunks", "fea-rs", "fea-rs/src/parse/source.rs", ["fea_rs::parse::source::SourceMap::add_entry"], "complete", "any position < 2^40; loop-free", "-",
+       "an empty chunk is not recorded, a non-empty one is"),
     _k("c13_lexer_cover", "fea-rs", "fea-rs/src/parse/lexer.rs", [], "complete", "", "", "identifier, non-ASCII character, number reachable in the companion's input generator", kind="cover", timeout_s=1800, on_demand=True),
 ]
 
